@@ -61,9 +61,6 @@ def h_button(ctx: Any, n: int, straddle: bool = False, post: bool = False, code:
     cfg = dict(n=n, stacks=stacks, blinds=tuple(blinds), min_bet=bb, antes=0)
     st = C.call(ctx, C.make_state, code, cfg)
     designated = 1 if n == 2 else (last + 1) % n
-    if n == 2 and sym_blinds:
-        if sb == bb:
-            ctx.known('F13')      # listed known finding: heads-up with EQUAL blinds opens with the big blind
     if st.status and st.street_index == 0 and st.actor_index is not None:
         exp = first_able(st, designated)
         ctx.check(st.actor_index == exp, 'first-round-opener', lambda: f'blinds {blinds} stacks {stacks} bets {st.bets}: actor {st.actor_index} expected {exp}')
@@ -196,7 +193,7 @@ def jobs(tier: str, seed: int) -> list[dict]:
     out = []
     B = 400 if tier == 'quick' else 1500
     out.append(dict(name='button/n2', fn='h_button', params=dict(n=2), budget_s=B, must_cover=['round1', 'round2']))
-    out.append(dict(name='known/F13', kind='native', fn='known_f13', params={}, budget_s=30))
+    out.append(dict(name='regression/F13', kind='native', fn='known_f13', params={}, budget_s=30))
     for k, part in enumerate([[c] for c in tri('s0', 's1')]):
         out.append(dict(name=f'button/n3/p{k}', fn='h_button', params=dict(n=3, part=part), budget_s=B,
                         must_cover=['round1'], prio=8))
@@ -238,7 +235,8 @@ def known_f13() -> dict:
     w.simplefilter('ignore')
     st = NoLimitTexasHoldem.create_state(tuple(Automation), True, 0, (1, 1), 1, (10, 10), 2)
     if st.actor_index == 0:
-        return dict(status='known-finding', native_replays=1,
-                    what='F13 heads-up NLHE with EQUAL blinds (1, 1), stacks (10, 10): the first round is opened by '
-                         'player 0 (the big blind) instead of player 1 (small blind/button)')
-    return dict(status='confirmed', reason='F13 no longer reproduces', native_replays=1)
+        # F13 was repaired by a fix: commit; if it returns it is a violation again
+        return dict(status='violation', kind='F13-returned',
+                    detail='heads-up NLHE with EQUAL blinds (1, 1), stacks (10, 10): player 0 (big blind) opens',
+                    replay={'values': {'blinds': [1, 1], 'stacks': [10, 10]}, 'outcome': 'viol'})
+    return dict(status='confirmed', reason='the repaired F13 input behaves', native_replays=1)
